@@ -67,6 +67,32 @@ Fixpoint retry_pairs_ok (pos : nat) (pending : bool) (l : list event) : bool :=
       else retry_pairs_ok pos pending l'
   end.
 
+(* breaker state-change events: a state-specific listener's event (tag = code of the new state) is followed at once by the
+   generic listener's event for the same transition when the generic listener is registered, and a generic event is
+   preceded by the specific one when that one is registered *)
+Fixpoint breaker_events_match (mask : Z) (pending : option (nat * Z)) (l : list event) : bool :=
+  match l with
+  | [] => match pending with None => true | Some _ => false end
+  | e :: l' =>
+      if kind_is KBreaker e then
+        let tag := e_aux e mod 4 in
+        let trans := e_aux e / 4 in
+        if tag =? 3 then
+          (if Z.testbit mask (trans mod 4)
+           then match pending with Some (p, tr) => Nat.eqb p (e_pos e) && (tr =? trans) | None => false end
+           else match pending with None => true | Some _ => false end)
+          && breaker_events_match mask None l'
+        else
+          match pending with
+          | Some _ => false
+          | None => (tag =? trans mod 4) && breaker_events_match mask (if Z.testbit mask 3 then Some (e_pos e, trans) else None) l'
+          end
+      else match pending with
+           | Some _ => false       (* nothing comes between the two listeners of one transition *)
+           | None => breaker_events_match mask None l'
+           end
+  end.
+
 Definition c16_ok (q : request) (o : xobs) : bool :=
   let evs := x_events o in
   let '(ls, lf, ld) := q_lsn q in
@@ -77,7 +103,8 @@ Definition c16_ok (q : request) (o : xobs) : bool :=
   && forallb (fun e => if kind_is KExecSuccess e || kind_is KExecFailure e || kind_is KExecDone e
                        then outcome_eqb (e_out e) (if q_run q then (fst (e_out e), snd (x_out o)) else x_out o) else true) evs
   && forallb (fun p => retry_pairs_ok p false evs) (seq 0 (length (q_stack q)))
-  && (count_kind KFnStart evs =? count_kind KFnEnd evs).
+  && (count_kind KFnStart evs =? count_kind KFnEnd evs)
+  && breaker_events_match (q_blsn q) None evs.
 
 (* ---- C02: a retry policy that is the whole stack runs the function at most maxRetries+1 times,
         and ExceededError wraps the last outcome *)
